@@ -192,7 +192,7 @@ SUMMARY.update({
  "C15-11": "refinement loop with a 'safety' bound n_atoms - n_initial_partitions that forgets the final confirming round: AssertionError for hydrogen-free F-C-C-C-C (every atom ends alone, one split per round)",
 })
 
-BREAKS = {"C03-12": "C15", "C01-11": "C08", "C04-8": "C01 C06 C07", "C02-9": "C08", "C06-9": "C07", "C06-7": "C07", "C15-8": "C08"}
+BREAKS = {"C03-12": "C15", "C04-8": "C01 C06 C07", "C02-9": "C08", "C06-9": "C07", "C06-7": "C07", "C15-8": "C08"}
 
 
 def main():
